@@ -118,7 +118,7 @@ func toBytesTriples(p *Prog, fn *ssa.Function) ([]flagTriple, int64, string) {
 }
 
 // fromBytesTriples: F: (b[i] & M) != 0 ; plus the tested length and whether the other-length return is the zero value
-var flagReadRe = regexp.MustCompile(`^\(\(\*(P:[A-Za-z_0-9]+)\[(\d+)\] & (\d+)\) != 0\)$`)
+var flagReadRe = regexp.MustCompile(`^\(\(\*(.+)\[(\d+)\] & (\d+)\) != 0\)$`)
 
 // flagRead: v is `(par[i] & mask) != 0`, directly or as the result of a boolean helper whose other returns are the constant
 // false under a length test of par (which then is the tested length).
@@ -485,4 +485,69 @@ func c20r4(c *Ctx) {
 			}
 		}
 	}
+}
+
+// readsFlagBits: below fn the idx-th parameter is read as flag bytes: some `par[i] & mask` (the parameter possibly handed on
+// to a module helper).
+func readsFlagBits(p *Prog, fn *ssa.Function, idx int, depth int) bool {
+	if fn == nil || depth > 3 || idx >= len(fn.Params) || len(fn.Blocks) == 0 {
+		return false
+	}
+	par := fn.Params[idx]
+	for _, b := range fn.Blocks {
+		for _, in := range b.Instrs {
+			switch x := in.(type) {
+			case *ssa.BinOp:
+				if x.Op != token.AND {
+					continue
+				}
+				for _, op := range []ssa.Value{x.X, x.Y} {
+					if ld, ok := op.(*ssa.UnOp); ok && ld.Op == token.MUL {
+						if ia, ok := ld.X.(*ssa.IndexAddr); ok && ia.X == ssa.Value(par) {
+							return true
+						}
+					}
+				}
+			case *ssa.Call:
+				sc := x.Call.StaticCallee()
+				if sc == nil || sc.Pkg == nil || !strings.HasPrefix(sc.Pkg.Pkg.Path(), modPath) {
+					continue
+				}
+				for i, a := range x.Call.Args {
+					if a == ssa.Value(par) && readsFlagBits(p, sc, i, depth+1) {
+						return true
+					}
+				}
+			}
+		}
+	}
+	return false
+}
+
+// writesFlagBytes: fn returns bytes it allocates and fills by `buf[i] |= mask` (itself or in a module helper it returns from).
+func writesFlagBytes(p *Prog, fn *ssa.Function, depth int) bool {
+	if fn == nil || depth > 3 || len(fn.Blocks) == 0 {
+		return false
+	}
+	res := fn.Signature.Results()
+	if res.Len() != 1 || res.At(0).Type().String() != "[]byte" {
+		return false
+	}
+	for _, b := range fn.Blocks {
+		for _, in := range b.Instrs {
+			switch x := in.(type) {
+			case *ssa.Store:
+				if _, ok := x.Addr.(*ssa.IndexAddr); ok {
+					if bo, ok := x.Val.(*ssa.BinOp); ok && bo.Op == token.OR {
+						return true
+					}
+				}
+			case *ssa.Call:
+				if sc := x.Call.StaticCallee(); sc != nil && sc != fn && sc.Pkg != nil && strings.HasPrefix(sc.Pkg.Pkg.Path(), modPath) && writesFlagBytes(p, sc, depth+1) {
+					return true
+				}
+			}
+		}
+	}
+	return false
 }
